@@ -24,7 +24,7 @@ RULE = ("one case = one LDAWrapper history: matrix class/inner solver/flags/tole
 PROBES = ["reuse_hit", "adjoint_storage", "conj_mode", "decoupled_dofs", "rows_only_decoupled", "cols_only_decoupled",
           "real_after_complex", "complex_after_real", "x0_nonempty_db", "zero_rhs", "zero_column", "dependent_block",
           "update_after_solves", "badly_scaled_block", "fresh_twin_also_raises", "reuse_judged", "reuse_not_judged_mixed_dtype", "reuse_not_judged_rank",
-          "cholesky_fallback", "two_wrappers", "stored_zeros_fixed_structure"]
+          "cholesky_fallback", "two_wrappers", "stored_zeros_fixed_structure", "rhs_fortran_order", "rhs_strided_view", "matrix_given_to_constructor"]
 FAULT_KINDS = ["cholesky_fail_forced", "cholesky_fail_natural", "inexact_inner_solver"]
 COMPONENTS = {"real": ["pymoto.solvers.LDAWrapper", "pymoto.solvers.SolverDenseLU/QR/Cholesky/LDL", "pymoto.solvers.SolverSparseLU",
                        "pymoto.solvers.CG", "scipy LAPACK/SuperLU"],
@@ -292,13 +292,28 @@ def run(case):
         m = model[w]
         if op["op"] == "update":
             A = G.make_matrix(dict(mdesc, seed=op["seed"], pattern=op["pattern"]))
+            via_ctor = False
             if W[w] is None:
                 W[w] = make_wrapper(case)
+                if op["seed"] % 4 == 0:
+                    # documented alternative: LDAWrapper(solver, A=A) updates right away
+                    inner_ = Counting(make_inner(case["inner"]))
+                    kw_ = dict(tol=case["tol"])
+                    if case["flags"] == "explicit":
+                        sym_, herm_ = flags_for(case["cls"], case["cplx"])
+                        kw_.update(symmetric=sym_, hermitian=herm_)
+                    try:
+                        W[w] = (pym.solvers.LDAWrapper(inner_, A=A, **kw_), inner_)
+                        via_ctor = True
+                        probe("matrix_given_to_constructor")
+                    except Exception:  # noqa  (judged below through the explicit update)
+                        W[w] = make_wrapper(case)
             wrapper, counter = W[w]
             had = any(len(h) for h in m["hist"].values())
             f0 = seams.state["chol_forced"] + seams.state["chol_natural"]
             try:
-                wrapper.update(A)
+                if not via_ctor:
+                    wrapper.update(A)
             except Exception as e:  # noqa
                 # would the same update succeed on a fresh wrapper?
                 try:
@@ -342,6 +357,13 @@ def run(case):
         cplx_ok = not (case["sparse"] is not None and not case["cplx"])
         b, kind = build_rhs(op, n, m["hist"][trans], cplx_ok)
         b = np.array(b)  # own copy
+        lay = op["seed"] % 5          # memory layout of the right-hand side (same values)
+        if lay == 1 and b.ndim == 2:
+            b = np.asfortranarray(b)
+            probe("rhs_fortran_order")
+        elif lay == 2:
+            b = np.repeat(b, 2, axis=0)[::2]
+            probe("rhs_strided_view")
         bcols = b.reshape(n, -1)
         x0 = None
         if op["x0"] == "prev" and m["prev_x"] is not None and m["prev_x"].shape == b.shape:
